@@ -608,8 +608,9 @@ func genScen(r *rand.Rand, engine bool) string {
 		victim := pick(r, calls)
 		name, _, _ := strings.Cut(victim, "|")
 		shadow := name + "|" + svc + pick(r, []string{"Stats", "Hello", "Nope"}) + "|x-shadow:s-{G}|" + pick(r, []string{"", "name:s.shadow"}) + "|-"
-		if r.Intn(4) == 0 {
-			// … or the other way round: the original is shadowed by a later definition
+		if !engine && r.Intn(4) == 0 {
+			// … or the other way round: the original is shadowed by a later definition (deterministic runs only: the
+			// engine runs are judged on the assumption that no step fails)
 			calls = append(calls, name+"|"+svc+"Hello|x-later:l-{G}|name:s.later|-")
 		} else {
 			pos := 0
